@@ -467,6 +467,11 @@ def standard_proof_part(ctx, props_rel, allowed_axioms=(), extra_targets=(), tra
     True when everything is discharged; on failure records what broke in
     ctx.broken (list of strings) — the caller then searches for an input."""
     broken = []
+    if "tasks" in translators:
+        ctx.assumptions.append("translator tools/py2v/gen_tasks.py (fail-closed) and the combinators of coq/model/TasksSem.v and TasksSemData.v "
+                               "as the reading of the Python statement forms of xdeps/tasks.py (a defaultdict read creates the entry, a loop "
+                               "iterates a snapshot, an exception keeps the state reached); docstrings, logger calls and the `is None` "
+                               "argument defaults are skipped; sorting.toposort and the reference classes are tied by the correspondence only")
     gen = regenerate(list(translators))
     for k, e in gen.items():
         ctx.obligations.append((f"translator:{k}", e is None, "" if e is None else e[-400:]))
